@@ -19,7 +19,7 @@ CHECKS = {
                 text="Random rule sets over the whole documented pattern language (plus 'large' profiles that force every generator array to grow) are printed in random documented spellings, compiled by the flex built from the working tree, and every scanner run is co-simulated event by event with an independent NFA-based model of the manual's matching rules; any sanitizer report, crash, hang or divergence is a violation.",
                 ref="4 C01"),
     "C03": dict(cat="exploration", tech="co-simulation under varied read schedules/buffer sizes/input paths + look-ahead bound monitor",
-                text="Each input is delivered under many (read-size schedule, buffer size) pairs, down to 1-byte reads into a 1-byte buffer, and through YY_INPUT, user yyread, stdio fread, stdio getc and read(2); every run must reproduce the buffering-free model's stream.  Interactive builds log bytes delivered at each token, bounded by the model's look-ahead need.",
+                text="Each input is delivered under many (read-size schedule, buffer size) pairs, down to 1-byte reads into a 1-byte buffer, and through YY_INPUT, user yyread, stdio fread, stdio getc and read(2); every run must reproduce the buffering-free model's stream; the same bytes are also handed over in memory (yy_scan_bytes / yy_scan_string / yy_scan_buffer), with a yymore() pending at the end of the text.  Interactive builds log bytes delivered at each token, bounded by the model's look-ahead need.",
                 ref="4 C03"),
     "C04": dict(cat="exploration", tech="co-simulation with NUL/high-byte inputs at read boundaries across table representations, under ASan/UBSan",
                 text="Rule sets with and without NUL/8-bit bytes, inputs with NULs at read boundaries, token starts/ends and before EOF, across all table representations, interactive and batch, 7- and 8-bit, co-simulated with the model in which bytes 0-255 are plain symbols.  -Cfe/-CFe cases partly leave the 8-bit default to flex; C++ scanners also read through the class's own LexerInput() on a std::istream.",
@@ -52,7 +52,7 @@ CHECKS = {
                 text="2-16 instances of one scanner (reentrant C, c99, C++ objects) in one process, each with its own input and log: interleaved on one thread by seeded schedules, and on one thread per instance under TSan with yields in the read path; each log must equal the instance's solo model stream; TSan reports are violations; scanners with different prefixes are linked into one program and their symbol tables checked.  Programs whose instances share tables loaded from a file; C++ objects built in dirty storage with both constructors.",
                 ref="4 C12"),
     "C13": dict(cat="exploration", tech="ASan/UBSan + allocation ledger + destroy-and-reuse sessions over the workloads of C03-C11; memcheck sample",
-                text="The workloads of C03-C11 re-run with user allocators that keep a ledger (unknown pointers to yyfree/yyrealloc, blocks left after yylex_destroy), a second session on the destroyed scanner, %array tokens around YYLMAX, everything under ASan+UBSan, a sample under valgrind memcheck.  C++ lexers are constructed in storage filled with 0xA5.",
+                text="The workloads of C03-C11 re-run with user allocators that keep a ledger (unknown pointers to yyfree/yyrealloc, blocks left after yylex_destroy), a second session on the destroyed scanner (also one given up with 26-110 start conditions still stacked), %array tokens around YYLMAX, everything under ASan+UBSan, a sample under valgrind memcheck.  C++ lexers are constructed in storage filled with 0xA5.",
                 ref="4 C13"),
     "C14": dict(cat="fault_enumeration", tech="fault injection: k-th allocation failure for every k, EIO/EINTR at every read index, classification of the exit path",
                 text="For each scenario the allocation requests are counted and every single one is failed in turn; EIO and EINTR are injected at every read index of the fread, getc and read(2) paths; each faulty run must end in the fatal-error hook with the documented message or the documented error return, with an undisturbed prefix before it; EINTR must leave the stream identical.  Table loading is enumerated for compressed and for -Cf/-CF files.  A crash right after an injected failure is a violation even when the log was lost.",
@@ -69,7 +69,7 @@ CHECKS = {
     "C18": dict(cat="exploration", tech="differential generation under allocator/environment perturbation, memcheck, bootstrap comparison",
                 text="The same specification and options are generated under MALLOC_PERTURB_, an LD_PRELOAD junk-fill/padding allocator shim with skewed time(), other cwd/TMPDIR/argv[0], ASan fill bytes and -t; scanner, header, tables and backup files must be byte-identical; a sample runs under memcheck; scan.l is regenerated by the final flex and compared with the stage-1 scanner.",
                 ref="4 C18"),
-    "C19": dict(cat="exploration", tech="finite option table: nm, compile-time and run-time probes with/without each option, %option vs command line",
+    "C19": dict(cat="exploration", tech="finite option table: nm, compile-time and run-time probes with/without each option, %option vs command line, equivalent -C spellings compared byte for byte",
                 text="Every row of an option table transcribed from the manual is probed on a scanner built with the option as %option, on the command line, and without it (symbols, static assertions, pointer types, run-time output, files, diagnostics); a row only counts when the probe distinguishes with from without.  Every spelling in the manual's option list (101 of them) is also handed to flex and must be recognized.",
                 ref="4 C19"),
     "C20": dict(cat="exploration", tech="tracer payloads in every user-code region read back from the compiled scanner; #line self-consistency scan",
